@@ -217,6 +217,13 @@ func (w *World) GRPC() envoy_auth.AuthorizationClient {
 	return w.grpcCli
 }
 
+// resetGRPC throws the in-process gRPC server and connection away; the next GRPC() call builds new ones.
+func (w *World) resetGRPC() {
+	w.Close()
+	w.grpcConn, w.grpcSrv, w.grpcCli = nil, nil, nil
+	w.grpcOnce = sync.Once{}
+}
+
 // Close releases the gRPC server if one was started.
 func (w *World) Close() {
 	if w.grpcConn != nil {
